@@ -18,6 +18,7 @@ import (
 type crashWindow struct {
 	lastOK     uint64 // txid of the last commit that returned success
 	inProgress uint64 // txid being committed (0: none)
+	inOpen     bool   // inside an Open that may run maintenance transactions
 }
 
 // recordHistory runs prog with commit markers and state recording.
@@ -45,6 +46,7 @@ type imageChecker struct {
 	res        *core.Result
 	prop       string
 	probeEvery int
+	resized    bool
 	n          int
 }
 
@@ -80,6 +82,11 @@ func (ic *imageChecker) check(img []byte, allowed []uint64, what string) bool {
 		return fail("harness-no-state", "no recorded state for txid %d", hdr.Txid)
 	}
 	w.Committed = st.clone()
+	// the size limit in effect is the one stored in the image
+	w.Cfg.MaxPages, w.Cfg.MaxSizeOdd = int(hdr.MaxSize/uint64(ic.cfg.PageSize)), 0
+	if ic.resized {
+		w.NoCoverage = true
+	}
 	if !w.Open() { // checks lock idle, contents == state, partition
 		ic.adopt(sub, what)
 		return false
@@ -190,6 +197,19 @@ func runCrashCase(c *core.Case) *core.Result {
 	p.WFlushPage, p.WFlushTx, p.WCheckpt = 8, 5, 4
 	p.MaxAllocN = 5
 	prog := GenProgram(r, p)
+	resized := c.Idx%6 == 4
+	if resized {
+		// crash the open-time maintenance transactions too: reopen with a changed max size
+		var np []Op
+		for _, op := range prog {
+			np = append(np, op)
+			if (op.K == OCommit || op.K == ORollback || op.K == OClose) && r.Chance(1, 4) {
+				np = append(np, Op{K: OReopenResize, A: r.Intn(100), B: r.Intn(2)})
+			}
+		}
+		prog = np
+		res.Add("histories_with_resize_on_open", 1)
+	}
 	big := c.Idx%48 == 5
 	if big {
 		// transactions exceeding the writer's batch buffer (1024 messages):
@@ -210,7 +230,7 @@ func runCrashCase(c *core.Case) *core.Result {
 	}
 	ops := w.Disk.Log()
 
-	ic := &imageChecker{c: c, cfg: cfg, states: w.States, res: res, prop: "C01", probeEvery: 7}
+	ic := &imageChecker{c: c, cfg: cfg, states: w.States, res: res, prop: "C01", probeEvery: 7, resized: resized}
 	ps := int(cfg.PageSize)
 	fullLimit, samples := 6, 6
 	if thorough {
@@ -246,6 +266,10 @@ func runCrashCase(c *core.Case) *core.Result {
 				win.lastOK, win.inProgress = uint64(op.Arg), 0
 			case "commit-fail":
 				win.inProgress = 0
+			case "open-begin":
+				win.inOpen = true
+			case "open-ok":
+				win.lastOK, win.inOpen = uint64(op.Arg), false
 			}
 			continue // a marker does not change the set of images
 		}
@@ -270,6 +294,14 @@ func runCrashCase(c *core.Case) *core.Result {
 		allowed := []uint64{win.lastOK}
 		if win.inProgress != 0 {
 			allowed = append(allowed, win.inProgress)
+		}
+		if win.inOpen {
+			// every header txid an open-time maintenance transaction may have written (same contents)
+			for t := win.lastOK + 1; t <= win.lastOK+2; t++ {
+				if w.States[t] != nil {
+					allowed = append(allowed, t)
+				}
+			}
 		}
 		n := len(walker.Pending)
 		hdrUnit := -1
@@ -328,6 +360,12 @@ func runCrashCase(c *core.Case) *core.Result {
 					res.Add("images", int64(images))
 					res.Key = w.Key()
 					return res
+				}
+				if win.inOpen {
+					res.Add("images_inside_open_maintenance_window", 1)
+					if h, _ := NewestHeader(img, ps); h.Txid != win.lastOK {
+						res.Add("recovered_maintenance_tx_header", 1)
+					}
 				}
 				if win.inProgress != 0 {
 					h, _ := NewestHeader(img, ps)
